@@ -8,7 +8,12 @@ compared (outputs + full state snapshot after every event)
     keys / signatures / session keys to Dolev-Yao terms (harness/hsworld.py) and the model computes
     the oracle answers itself (verify, dh, kdf, token comparison with the temp pool);
 ServerContext.get_token/_validateChallengeResponse/_onConnect are compared with unit ctx_ops.
-Oracle: the property restated on the implementation alone (see oracle_* below)."""
+Oracle: the property restated on the implementation alone (see oracle_* below).  "The key the client is configured
+with" is the key handed to UdpClient(...) by the harness, remembered HERE (and in connsim's hs_oracles) — not whatever
+the connection object holds at the moment it judges a hello.
+Late datagrams: handshake datagrams (genuine, re-signed, foreign, replayed, altered) are also delivered AFTER every
+terminal state of the client (connect time-out fired; dropped by a bad signature; closed by the application; closed by
+the peer; DROPPED) and of the server connection (kicked by the application, challenge never answered)."""
 import struct, io, os
 from harness import lib
 from harness import connsim as S
@@ -24,7 +29,9 @@ RULE = ("sessions = one real client + one real server-side connection + an attac
         "every field of the server hello substituted (root key, ephemeral key, salt, token, signature), hello re-signed "
         "with a fresh key (announcing its own or the genuine root key), hello replayed from another session, challenge "
         "with wrong token / wrong key / garbled / in clear / duplicated / missing, clear multi-message datagrams "
-        "(the D1/D2 shape), pinned and unpinned clients; non-trivial = a datagram reaches _recv_datagram of an endpoint "
+        "(the D1/D2 shape), pinned and unpinned clients; the genuine hello and every attacker variant of it delivered "
+        "AFTER each terminal state of the client (connect time-out, bad signature, closed by the application / by the peer, "
+        "DROPPED) and handshake datagrams handed to a kicked / expired server connection; non-trivial = a datagram reaches _recv_datagram of an endpoint "
         "whose handshake is in progress and is not the next honest datagram in order")
 ASSUMPTIONS = [
     "perfect cryptography (premises of the theorems): ECDSA verify(pub sk) s m <-> s = sign sk m and a signature names "
@@ -71,6 +78,9 @@ def install_logtap():
 
 # ------------------------------------------------------------------ one session
 
+PIN_REPORTS = [0]
+
+
 class Session:
     def __init__(self, run, pinned=True, with_cb=True):
         self.run = run
@@ -81,6 +91,7 @@ class Session:
         self.t = S.CLOCK.t
         self.env = S.env_for_mtu(1500)
         self.pinned = pinned
+        self.cfg_pin = S.root_key().getPublicKey() if pinned else None     # what the client is CONFIGURED with
         self.with_cb = with_cb
         self.C = N.Endpoint("client", self.keys, None, established=False, pinned=pinned)
         self.Sv = N.Endpoint("server", self.keys, None, established=False)
@@ -237,6 +248,18 @@ class Session:
         self.log.append(("stick",))
         return self._apply("server", ("stick", self.t))
 
+    def cdisc(self):
+        """the application closes the client: UdpClient.disconnect()"""
+        if self.C.impl.conn is None:
+            return
+        self.log.append(("cdisc",))
+        return self._apply("client", ("disc",))
+
+    def sdisc(self):
+        """the application kicks the client: ServerClientConnection.disconnect()"""
+        self.log.append(("sdisc",))
+        return self._apply("server", ("disc",))
+
     # -- the property, restated on the implementation alone
     def fail(self, what, site, **kw):
         case = {"what": what, "pinned": self.pinned, "script": [list(x) for x in self.log[-40:]]}
@@ -272,6 +295,15 @@ class Session:
         from mpgameserver.serializable import Serializable
         from mpgameserver import crypto
         key = conn.session_key_bytes
+        if self.pinned:
+            held = getattr(conn, "server_public_key", None)
+            if (held is None or held.getBytes() != self.cfg_pin.getBytes()) and not getattr(self, "pin_reported", False) \
+                    and PIN_REPORTS[0] < 3:
+                self.pin_reported = True          # once per session (it stays that way), three sessions per run
+                PIN_REPORTS[0] += 1
+                self.fail("client configured with the server's public key no longer holds that key",
+                          "ClientServerConnection.server_public_key", status=conn.status.value,
+                          holds=None if held is None else "another key")
         if conn.status.value == 2 and not key:
             self.fail("client CONNECTED without a session key", "ClientServerConnection")
         if key is not None and len(key) != 16:
@@ -296,7 +328,7 @@ class Session:
                     try:
                         # verification with the key the client was configured with, done here by hand
                         rootder, payload, sig = W.split_server_hello(pl)
-                        pin = conn.server_public_key
+                        pin = self.cfg_pin          # the configured key, whatever the connection object holds now
                         if pin is None:
                             from mpgameserver.crypto import EllipticCurvePublicKey
                             pin = EllipticCurvePublicKey.fromBytes(rootder)
@@ -311,7 +343,8 @@ class Session:
                         pass
             if not ok:
                 self.fail("client adopted a key / CONNECTED without a hello signed by the configured key",
-                          "ClientServerConnection._recvServerHello")
+                          "ClientServerConnection._recvServerHello", status_before=pre["status"],
+                          status=conn.status.value, mutation=getattr(self, "mut", None))
 
     def oracle_server(self, conn, pre, d):
         from mpgameserver.serializable import Serializable
@@ -700,12 +733,14 @@ def other_session_hello(run):
     return b
 
 
-def run_session(run, name, body, pinned=True, honest_complete=False, with_cb=True):
+def run_session(run, name, body, pinned=True, honest_complete=False, with_cb=True, model=True):
+    """model=False: implementation-only session (oracle clauses only) — used where the application's connect
+    callback RAISES: the exception leaves UdpClient.update(), which the Conn.v step function does not describe"""
     sess = Session(run, pinned=pinned, with_cb=with_cb)
     try:
         body(sess)
         sess.oracle_final(honest_complete)
-        diffs = sess.check()
+        diffs = sess.check() if model else []
         run.count("sessions")
         run.count("session:" + name.split(":")[0])
         c, s = sess.C.impl.conn, sess.Sv.impl.conn
@@ -894,6 +929,182 @@ def injections(run, rng, full):
     return other
 
 
+CLIENT_ENDS = ["timeout", "timeout-unanswered", "bad-signature", "bad-signature+timeout", "closed-by-application",
+               "closed-by-peer", "dropped", "closed-before-hello"]
+
+
+def drive_client_to_end(sess, end, rng):
+    """bring the client to a terminal state; the genuine server hello (D2) exists but (except where the handshake
+    completes first) never reached the client in time.  Returns the genuine D2 datagram."""
+    if end == "timeout-unanswered":
+        honest_prefix(sess, 2)                     # the server answered, the answer is lost
+        sess.advance(2 * T + 15)
+        sess.ctick()                               # the connect time-out fires: DISCONNECTED, callback(False)
+        sess.advance(rng.choice([15, 300, 3 * T]))
+        sess.ctick()
+    elif end == "timeout":
+        honest_prefix(sess, 2)
+        for _ in range(4):                         # polled at frame rate until the time-out fires
+            sess.advance(T // 2 + 15)
+            sess.ctick()
+            sess.stick()
+        sess.advance(T // 2)
+        sess.ctick()
+    elif end in ("bad-signature", "bad-signature+timeout"):
+        honest_prefix(sess, 2)
+        forged = d2_mutations(sess, sess.out["server"][0], rng, False, None)[0]
+        forged = [d for name, d in forged if name.startswith("shello:resigned") or name.startswith("shello:mitm")]
+        sess.ctick(rng.choice(forged))             # InvalidSignature: DISCONNECTED (the hello timer keeps running)
+        if end.endswith("timeout"):
+            sess.advance(2 * T + 300)
+            sess.ctick()
+    elif end == "closed-by-application":
+        honest_prefix(sess, 4)
+        sess.cdisc()
+        sess.advance(300)
+        sess.ctick()
+    elif end == "closed-by-peer":
+        honest_prefix(sess, 4)
+        sess.sdisc()
+        sess.advance(300)
+        sess.stick()
+        if len(sess.out["server"]) > 1:
+            sess.ctick(sess.out["server"][-1])     # DISCONNECT: the client goes DISCONNECTING
+        sess.advance(300)
+        sess.ctick()
+    elif end == "dropped":
+        honest_prefix(sess, 4)
+        sess.advance(5 * T + 300)
+        sess.ctick()                               # nothing received for 5 s: DROPPED
+    elif end == "closed-before-hello":
+        honest_prefix(sess, 2)
+        sess.cdisc()                               # the application gives up while CONNECTING
+        sess.advance(300)
+        sess.ctick()
+    return [x for x in sess.out["server"] if hdr_of(x)[4] == 2][0]
+
+
+def late_datagrams(run, rng, full, other):
+    """handshake datagrams delivered AFTER a terminal state.  Client: for every terminal state, the genuine hello and
+    every attacker variant of it (re-signed by another key announcing itself / the genuine root, man-in-the-middle
+    parameters, fields swapped under the genuine signature, replay from another session, header rewrites), then whatever
+    the client answers is handed to the server and the honest datagrams keep flowing.  Server connection: kicked by the
+    application (or never answered) and then handed the client hello / challenge / forged challenges again."""
+    probe = Session(run)
+    honest_prefix(probe, 2)
+    names = [n for n, _ in d2_mutations(probe, probe.out["server"][0], rng, full, other)[0]]
+    probe.close()
+    idx_hello = [i for i, n in enumerate(names) if n.startswith("shello:")]
+    idx_other = [i for i, n in enumerate(names) if not n.startswith("shello:")]
+    for end in CLIENT_ENDS:
+        picks = [-1] + idx_hello + (idx_other if full else rng.sample(idx_other, 3))
+        if not full and end not in ("timeout", "timeout-unanswered", "bad-signature+timeout"):
+            picks = [-1] + rng.sample(idx_hello, 6) + rng.sample(idx_other, 1)
+        for i in picks:
+            for pinned in ((True, False) if (full or (i in idx_hello[:6] and end.startswith("timeout"))) else (True,)):
+                def body(sess, i=i, end=end):
+                    d2 = drive_client_to_end(sess, end, rng)
+                    if i < 0:
+                        name, d = "genuine-late", d2
+                    else:
+                        name, d = d2_mutations(sess, d2, rng, full, other)[0][i]
+                    sess.mut = "%s after %s" % (name, end)
+                    n_before = len(sess.out["client"])
+                    sess.ctick(d)
+                    sess.advance(300)
+                    sess.ctick()
+                    if rng.random() < 0.5:
+                        sess.ctick(d)                      # and once more
+                    for x in sess.out["client"][n_before:]:
+                        sess.srecv(x)                      # whatever the client answered goes to the server
+                    sess.advance(300)
+                    sess.stick()
+                    sess.ctick(d2)                         # the genuine hello, later still
+                    sess.advance(300)
+                    sess.ctick()
+                    for x in sess.out["client"][n_before:]:
+                        sess.srecv(x)
+                    sess.stick()
+                s, out = run_session(run, "late:%s:%d:%s" % (end, i, pinned), body, pinned=pinned, with_cb=rng.random() < 0.8)
+                run.count("late-hello/after-" + end)
+                run.count("late-hello/client-ends-" + ("CONNECTED" if out[0] == 2 else "unconnected"))
+    # the server connection after ITS terminal states
+    for end in ("kicked-after-connect", "kicked-while-connecting", "challenge-never-answered"):
+        for variant in range(6 if full else 3):
+            def body(sess, end=end, variant=variant):
+                if end == "kicked-after-connect":
+                    honest_prefix(sess, 4)
+                    sess.sdisc()
+                elif end == "kicked-while-connecting":
+                    honest_prefix(sess, 3)
+                    sess.sdisc()
+                else:
+                    honest_prefix(sess, 3)
+                    sess.advance(2 * T + 300)
+                sess.advance(300)
+                sess.stick()
+                late = list(sess.out["client"][:2])
+                if len(sess.out["client"]) > 1 and sess.C.impl.conn.session_key_bytes:
+                    late += [d for _, d in d3_mutations(sess, sess.out["client"][1], rng, False)[-8:]]
+                late += [d for _, d in keyless_attacks(sess, rng)[:6]]
+                rng.shuffle(late)
+                for d in late[:4 + variant]:
+                    sess.srecv(d)
+                    if rng.random() < 0.5:
+                        sess.advance(300)
+                        sess.stick()
+                sess.advance(300)
+                sess.stick()
+                sess.ctick(sess.out["server"][-1])
+            run_session(run, "late-server:%s:%d" % (end, variant), body)
+            run.count("late-datagrams/server-" + end)
+
+
+def raising_connect_callback(run, rng, full, other):
+    """the application's connect callback RAISES (connsim "hello" with_cb = 2: it records the call, then raises).  The
+    exception leaves UdpClient.update(); whom the client trusts, which key it adopts and when the server promotes must not
+    depend on it: every oracle clause is judged as usual (implementation only), honest runs must still complete."""
+    def honest(sess):
+        honest_prefix(sess, 4)
+        sess.advance(300)
+        sess.stick()
+        sess.ctick()
+    for pinned in (True, False):
+        s, out = run_session(run, "raising-cb:honest:%s" % pinned, honest, pinned=pinned, honest_complete=True, with_cb=2, model=False)
+        if not any(o[0] == 3 for tr in s.C.itrace for o in tr[0]):
+            raise RuntimeError("raising connect callback: no exception left UdpClient.update() — the callback did not raise")
+    probe = Session(run)
+    honest_prefix(probe, 2)
+    names = [n for n, _ in d2_mutations(probe, probe.out["server"][0], rng, full, other)[0]]
+    probe.close()
+    idx = [i for i, n in enumerate(names) if n.startswith("shello:")]
+    for end in (None, "timeout", "bad-signature+timeout"):
+        for i in (idx if full else rng.sample(idx, 8)):
+            def body(sess, i=i, end=end):
+                if end is None:
+                    honest_prefix(sess, 2)
+                    d2 = sess.out["server"][0]
+                else:
+                    d2 = drive_client_to_end(sess, end, rng)       # callback(False) raises out of update() on the way
+                name, d = d2_mutations(sess, d2, rng, full, other)[0][i]
+                sess.mut = "%s%s, connect callback raises" % (name, " after " + end if end else "")
+                sess.ctick(d)
+                sess.advance(300)
+                sess.ctick()
+                for x in sess.out["client"][1:]:
+                    sess.srecv(x)
+                sess.advance(300)
+                sess.stick()
+                sess.ctick(d2)
+                sess.advance(300)
+                sess.ctick()
+                for x in sess.out["client"][1:]:
+                    sess.srecv(x)
+                sess.stick()
+            run_session(run, "raising-cb:%s:%d" % (end, i), body, with_cb=2, model=False)
+            run.count("raising-connect-callback")
+
+
 def mask(r):
     return (r & 0x7fffffff) | 0x40000000
 
@@ -1009,6 +1220,10 @@ def replay(run, data):
             sess.advance(step[1])
         elif k == "stick":
             sess.stick()
+        elif k == "cdisc":
+            sess.cdisc()
+        elif k == "sdisc":
+            sess.sdisc()
         elif k == "ctick":
             sess.ctick(bytes.fromhex(step[1]) if step[1] else None)
         elif k == "srecv":
@@ -1029,6 +1244,7 @@ def run(run):
     logging.disable(logging.CRITICAL)      # per-connection warnings of the implementation (not observed)
     W.init_ser_hdr()
     install_logtap()
+    PIN_REPORTS[0] = 0
     run.rules.append(RULE)
     ctx_unit2(run, rng, 4000 if full else 600)
     systematic_orders(run)
@@ -1036,6 +1252,8 @@ def run(run):
                           "datagrams, pinned and unpinned")
     schedules(run, rng, 6000 if full else 120)
     other = injections(run, rng, full)
+    late_datagrams(run, rng, full, other)
+    raising_connect_callback(run, rng, full, other)
     attack_schedules(run, rng, 6000 if full else 100, other)
     run.evaluations += run.dist.get("sessions", 0)
     logging.disable(logging.NOTSET)
